@@ -29,7 +29,7 @@ func init() {
 		},
 		Plan: func(tier string) []Child {
 			n := pick(tier, 6, 15)
-			out := shards(n, Child{Flavour: "plain", NCPU: 1, Params: map[string]string{"path": "all"}})
+			out := shardsVar(n, Child{Flavour: "plain", NCPU: 1, Params: map[string]string{"path": "all"}})
 			out = append(out, Child{Flavour: "noadx", NCPU: 1, Shard: 0, NShards: 1, Params: map[string]string{"path": "noadx-build"}})
 			return out
 		},
